@@ -295,7 +295,7 @@ def model(case, mode="final"):
             stdin_lines = pipe_lines
         else:
             stdin_lines = []
-        chunks = {"out": H.stage_stdout(i, stdin_lines, list(st.get("args", ())) + list(st.get("args_after", ()))), "err": f"E{i}\n"}
+        chunks = {"out": H.stage_stdout(i, stdin_lines, list(st.get("args", ())) + list(st.get("args_after", ())), H._bulk(st) == "out"), "err": H.stage_stderr(i, H._bulk(st) == "err")}
         pipe_lines = []
         for stream in ("out", "err"):
             d = p[stream]
@@ -356,7 +356,7 @@ def _cmp_sink(obs, prefix, chunks, multiset=False):
     return (missing, extra)
 
 
-_TOKEN_LINE = re.compile(r"^(?:[OE]\d|I\d_\w*\dI|A\d_\w*\dA|old\d|F\d)$")
+_TOKEN_LINE = re.compile(r"^(?:[OE]\d|I\d_\w*\dI|A\d_\w*\dA|Z\d+|old\d|F\d)$")
 
 
 def _norm_line(ln, t=None):
@@ -874,6 +874,50 @@ def gen_cases(thorough):
                         c = classify(src + ">")
                         add("combo", c, op, kind, "only", "bare", [{"op": src + ">", "target": dst, "nospace": True}], {dst: OLD}, (), False, "existing")
                     cases[-1]["stages"][0]["args"], cases[-1]["stages"][0]["args_after"] = ["w1"], ["w2"]
+
+    # 11. callable aliases that do not flush: 'lazy' (writes to stdout/stderr and returns) and 'ret'
+    #     (hands its output back as the return value (out, err, 0)); whatever is still in the
+    #     alias' stream wrappers when it returns must be delivered too
+    lazy_caps = CAPTURES if thorough else ("bare", "$()")
+    for style in ("lazy", "ret"):
+        for c in ("NONE",) + CLASSES:
+            for pos in PRODUCT_POS:
+                for cap in lazy_caps:
+                    redirs, pre = ([], {}) if c == "NONE" else redirs_for((c,))
+                    neigh = _neighbour_sets(pos, ("ext",))[0]
+                    add("lazy", c, CANON.get(c, ""), "thr", pos, cap, redirs, pre, neigh, True, "existing" if pre else None)
+                    cases[-1]["meta"]["kind"] = f"thr.{style}"
+                    cases[-1]["stages"][POSITIONS[pos][0] - 1]["style"] = style
+
+    # 12. pipe-filling alias | slow consumer: the non-flushing alias first puts 64000 flushed bytes
+    #     into the stream that feeds the pipe (the pipe is then full), leaves 4 KB + its O/E lines in
+    #     the wrappers and returns; the consumer sleeps SLOW_SECONDS before it reads.  Everything
+    #     must still arrive, in particular what a redirect sends to a FILE from that stage.
+    out_sets = [(), ("ERR_W",), ("ERR_A",), ("ERR_W", "2>"), ("ERR_W", "err>"), ("E2O",), ("E2P",), ("A2P",)]
+    err_sets = [("OUT_W", "E2P"), ("E2P", "OUT_W"), ("E2P",), ("A2P",), ("E2O",)]
+    combos = []  # (bulk stream, classes/spellings, style, consumer kind, capture, position)
+    for bulk, sets in (("out", out_sets), ("err", err_sets)):
+        for cs in sets:
+            if thorough:
+                for style, ck, cap, pos in itertools.product(("lazy", "ret"), ("ext", "thr"), ("bare", "$()", "!()"), ("first2", "mid3", "first3")):
+                    combos.append((bulk, cs, style, ck, cap, pos))
+            else:
+                combos.append((bulk, cs, "lazy", "ext", "bare", "first2"))
+                combos.append((bulk, cs, "lazy", "thr", "$()", "first2"))
+    for bulk, cs, style, ck, cap, pos in combos:
+        if len(cs) == 2 and cs[1] in UNIVERSE:  # (class, explicit spelling)
+            classes, spell = (cs[0],), cs[1]
+        else:
+            classes, spell = cs, None
+        redirs, pre = redirs_for(classes)
+        if spell:
+            redirs[0]["op"] = spell
+        t, n = POSITIONS[pos]
+        add("slowpipe", "+".join(classes) or "NONE", " ".join(r["op"] for r in redirs), "thr", pos, cap, redirs, pre, (ck,) * (n - 1), True, "existing" if pre else None)
+        case = cases[-1]
+        case["meta"]["kind"] = f"thr.{style}.bulk-{bulk}|{ck}.slow"
+        case["stages"][t - 1].update(style=style, bulk=bulk)
+        case["stages"][t]["slow"] = True
     return cases
 
 
@@ -949,7 +993,15 @@ def run(ctx):
             expected="only the spellings enumerated in xv/c07.py UNIVERSE",
         )
     ctx.log(f"{len(cases)} cases ({len(UNIVERSE)} spellings)")
-    res = common.pmap(_run_one, cases, ctx.jobs, chunk=8, init=_init_worker, seed=ctx.seed)
+    # cases with a sleeping consumer are dispatched one per chunk so that they spread over all workers
+    slow_idx = [i for i, c in enumerate(cases) if any(st.get("slow") for st in c["stages"])]
+    slow_set = set(slow_idx)
+    fast_idx = [i for i in range(len(cases)) if i not in slow_set]
+    res = [None] * len(cases)
+    for idxs, chunk in ((fast_idx, 8), (slow_idx, 1)):
+        out = common.pmap(_run_one, [cases[i] for i in idxs], ctx.jobs, chunk=chunk, init=_init_worker, seed=ctx.seed)
+        for i, r in zip(idxs, out):
+            res[i] = r
 
     # ---- aggregate.  Keys:
     #   route failures   <class>:<kind>:<position>:<capture>:<signature>[:sp=only[..]][:target=only[..]][:neigh=only[..]]
@@ -1025,7 +1077,7 @@ def run(ctx):
             for jpos, st in zip(("first2", "mid3", "last2"), case["stages"]):
                 cands += [(classify(r["op"]), st["kind"], jpos) for r in st["redirs"]]
         else:
-            cands = [(c, m["kind"], POS_ANALOG.get(m["pos"], m["pos"])) for c in m["class"].split("+")]
+            cands = [(c, m["kind"].split(".")[0], POS_ANALOG.get(m["pos"], m["pos"])) for c in m["class"].split("+")]
         for c, knd, ps in cands:
             j = single.get((c, knd, ps, case["capture"]))
             if j is not None and sigs[j] is not None and kind_of(sigs[j]) == kind_of(sig):
